@@ -57,18 +57,27 @@ def mon_limit_df(result, pre, *a, **k):
     def on_axis(v, lim):
         # the limit is literally the time of sample v on the float time axis (v / fs): the boundary coincides with the limit
         return lim is not None and float(v) / float(fs) == float(lim)
+    flo = None if xlo is None else float(xlo)
+    fhi = None if xhi is None else float(xhi)
     for i, ix in enumerate(pre_idx):
-        lo_on, hi_on = on_axis(L[i], start), on_axis(N[i], stop)
-        if lo_on or hi_on:
-            count('C18:limit_df_boundary_coincidence_on_time_axis')
-        near = (near_not_exact(L[i], xlo) and not lo_on) or (near_not_exact(N[i], xhi) and not hi_on) or \
-            near_not_exact(N[i], xlo) or near_not_exact(L[i], xhi)
-        inside = (xlo is None or lo_on or Fraction(L[i]) >= xlo) and (xhi is None or hi_on or Fraction(N[i]) <= xhi)
-        outside = (xlo is not None and Fraction(N[i]) < xlo) or (xhi is not None and Fraction(L[i]) > xhi)
+        far = (flo is None or (abs(L[i] - flo) > 1 and abs(N[i] - flo) > 1)) and (fhi is None or (abs(L[i] - fhi) > 1 and abs(N[i] - fhi) > 1))
+        if far:
+            # more than a sample away from both limits: floating-point comparison is exact enough, no rational arithmetic needed
+            lo_on = hi_on = near = False
+            inside = (flo is None or L[i] >= flo) and (fhi is None or N[i] <= fhi)
+            outside = (flo is not None and N[i] < flo) or (fhi is not None and L[i] > fhi)
+        else:
+            lo_on, hi_on = on_axis(L[i], start), on_axis(N[i], stop)
+            if lo_on or hi_on:
+                count('C18:limit_df_boundary_coincidence_on_time_axis')
+            near = (near_not_exact(L[i], xlo) and not lo_on) or (near_not_exact(N[i], xhi) and not hi_on) or \
+                near_not_exact(N[i], xlo) or near_not_exact(L[i], xhi)
+            inside = (xlo is None or lo_on or Fraction(L[i]) >= xlo) and (xhi is None or hi_on or Fraction(N[i]) <= xhi)
+            outside = (xlo is not None and Fraction(N[i]) < xlo) or (xhi is not None and Fraction(L[i]) > xhi)
         if near:
             count('C18:limit_df_boundary_coincidence_up_to_rounding')
             continue
-        if (xlo is not None and Fraction(L[i]) == xlo) or (xhi is not None and Fraction(N[i]) == xhi):
+        if not far and ((xlo is not None and Fraction(L[i]) == xlo) or (xhi is not None and Fraction(N[i]) == xhi)):
             count('C18:limit_df_boundary_coincidence_exact')
         if inside:
             n_in += 1
@@ -185,6 +194,10 @@ def make_table(rng):
     with quiet():
         df = compute_features(sig, fs, (lo, hi), center_extrema=center, burst_method=method,
                               threshold_kwargs={'min_n_cycles': 2} if method == 'cycles' else {'burst_fraction_threshold': .5})
+    if rng.random() < 0.3 and len(df):
+        # the table carries its own row labels (selected from / stored with a longer table)
+        df.index = pd.RangeIndex(5, 5 + len(df)) if rng.random() < 0.5 else pd.Index(np.arange(len(df)) * 3 + 1)
+        attach.count('C18:table_with_its_own_row_labels')
     if rng.random() < 0.2:
         df = df.drop(columns=[c for c in df.columns if c in ('is_burst', 'amp_fraction', 'amp_consistency', 'period_consistency',
                                                              'monotonicity', 'burst_fraction')])
@@ -213,6 +226,15 @@ def run_limit(sh, case, driver='limit'):
     # event-locked time axis (negative times before the event) and limits that are exactly 0
     t0 = float(int(n // 3)) / fs
     times2 = times - t0
+    # limits that are exactly the first / last time point of the axis (the upper bound is open, the lower one closed)
+    for (a2, b2) in ((None, float(times[-1])), (float(times[0]), float(times[-1])), (float(times[-1]), None), (float(times[-1]), float(times[-1])),
+                     (None, float(times[0])), (float(times[n // 2]), float(times[-1]))):
+        try:
+            with quiet():
+                limit_signal(times, sig, start=a2, stop=b2)
+            attach.count('C18:limit_signal_limit_on_an_end_of_the_axis')
+        except Exception as e:
+            vs.append({'mechanism': 'limit_signal:' + attach.exc_mechanism(e), 'message': 'limit_signal raised %r for start=%r stop=%r' % (e, a2, b2)})
     for (a2, b2) in ((0, None), (0, 0.5 * (n / fs - t0)), (None, 0), (0.0, None), (None, 0.0), (0, 0)):
         try:
             with quiet():
